@@ -15,4 +15,10 @@ TEXT['C17'] = dict(
   note='Trusted: Coq kernel, gentables (go/ast), Go harness + AnonSymCheck.v, hook files (add-only; empty without tag). Modelled not verified: Go runtime/scheduler/memory model, sync.RWMutex. No axioms.',
   technique='Coq proof (induction over schedules) + regenerated lock table + trace replay; race detector as supporting evidence')
 
+TEXT['C10'] = dict(
+  level='Machine-checked Coq theorems over an executable model of the hclwrite loader (hclwrite/parser.go: partition*, parseBody/Item/Attribute/Block/Labels/Expression/Traversal/TraversalStep): every partition function conserves the token list for ANY range; for ANY token list and ANY native AST ranges satisfying ranges_wf (what an error-free hclsyntax parse guarantees: nested, ordered, token-aligned ranges), loading succeeds without a modelled panic and flattening the tree gives back exactly the input tokens (index keys of every literal kind, comments anywhere); the tree exposes exactly the attributes, blocks, labels (multi-token labels included) and traversals of the native AST at every depth; File.Bytes = write(format(tokens)) using C09s formatter model. Tied to the code on every run by differential execution (tree shape, tokens, accessors) and a direct oracle on the real code (Bytes == Format(src), token preservation, accessor completeness, no panic).',
+  design_ref='DESIGN.md §5 C10',
+  note='Trusted: Coq kernel, Go harness + LoaderCheck.v, hook files. Modelled not verified: hclsyntax scanner/parser (their output is the model input; ranges_wf checked per case). No axioms.',
+  technique='Coq proof (induction over body trees and traversals) + differential model-code correspondence')
+
 NOT_APPLICABLE = {p: 'not yet built in this round (the design in DESIGN.md applies; no check is registered until its floor exists)' for p in ['C%02d' % i for i in range(1, 21)]}
